@@ -553,9 +553,21 @@ def r_tuplerole(idx, rep, rule="R-TUPLEROLE", floor=8):
               g.key + "|forwards the result tuple", g.where, "gjk_nesterov_accelerated_primitives must return run_gjk_nesterov_accelerated(...) unchanged")
     # jolt iteration helper: same call of _distance_loop
     J = "distance3d.gjk._gjk_jolt"
-    a = calls(idx.func(J + "::gjk_distance_jolt").node, "_distance_loop")
-    b = calls(idx.func(J + "::gjk_distance_jolt_iterations").node, "_distance_loop")
-    ok = len(a) == 1 and len(b) == 1 and [u(x) for x in a[0].args] == [u(x) for x in b[0].args]
+    # call sites reached from each driver (through private helpers of the module): when both drive the loop through ONE shared helper the clause holds
+    # by construction; two separate call sites must pass the same argument list
+    def loop_calls(fn, depth=0, seen=None):
+        seen = seen if seen is not None else set()
+        out = list(calls(fn.node, "_distance_loop"))
+        for c in calls(fn.node):
+            callee = idx.resolve_call(fn.module, c, None)
+            if depth < 2 and isinstance(getattr(callee, "node", None), ast.FunctionDef) and callee.module is fn.module and callee.name.startswith("_") \
+                    and callee.name != "_distance_loop" and callee.key not in seen:
+                seen.add(callee.key)
+                out += loop_calls(callee, depth + 1, seen)
+        return out
+    a = loop_calls(idx.func(J + "::gjk_distance_jolt"))
+    b = loop_calls(idx.func(J + "::gjk_distance_jolt_iterations"))
+    ok = len(a) == 1 and len(b) == 1 and (a[0] is b[0] or [u(x) for x in a[0].args] == [u(x) for x in b[0].args])
     rep.check(ok, rule, J + "::gjk_distance_jolt_iterations|same _distance_loop call", idx.func(J + "::gjk_distance_jolt_iterations").where,
               "the iteration-count helper must drive _distance_loop with the same argument list as gjk_distance_jolt")
     # aliases in gjk/__init__: gjk / gjk_distance / gjk_intersection
